@@ -188,3 +188,11 @@ Definition run_bscript (clk : positive) (nf : nat) (imp : option (Z * kstat)) (l
        JL (map (fun x => JL (map JZ x)) (bhist_totals imp [] l));
        jopt (fun x => JB (k_stat (snd x))) imp;
        jbool (imp_wf nf ids imp && bscript_ok clk nf ids imp [] l) ].
+
+(* the same history on a user subclass of Process (ovr = it overrides the public cpu_times()); the
+   figures compared for cpu_times() are the library's own (ov = identity).  l_model: what the code
+   gets to execute (an as_dict() whose block entry fails executes nothing else); l_spec: the full
+   history, as demanded *)
+Definition run_sub (clk : positive) (ovr : bool) (l_model l_spec : list pbev) : jv :=
+  JL [ JL (map (jv_outcome jpbres) (pb_run_sub ovr (fun t => t) clk pb_init l_model));
+       JL (map (jv_outcome jpbres) (spec_pb_run clk g_init l_spec)) ].
